@@ -118,6 +118,11 @@ def apply(spec, mut, strict=True):
             f.update(nf)
         else:
             for a, v in mut['attrs'].items():
+                if a == 'target':
+                    # hinted edits only: the relation is re-targeted in models.py
+                    need(f['kind'] in S.REL_KINDS, 'target on non-relation')
+                    f['target'] = list(v)
+                    continue
                 need(a in CHANGEABLE, 'unsupported attr %s' % a)
                 f[a] = v
         if 'null' in mut['attrs'] and not mut['attrs']['null'] and f['kind'] != 'ManyToMany':
